@@ -7,25 +7,15 @@ def need(n):
     return (blen(n) + 7) // 8
 
 
-def be_bytes(x, k) -> Seq:
-    """k-octet big-endian form of x (x mod 256^k)"""
-    if k <= 0:
-        return []
-    return be_bytes(x // 256, k - 1) + [x % 256]
-
-
-def be_bytes__facts(x, k, r):
-    return implies(k >= 0, len(r) == k) and implies(k < 0, len(r) == 0)
-
-
 # ---- 8.1.3 length octets ------------------------------------------------------------------
 
 def is_der_length(r, n):
-    """r is THE definite minimal length encoding of n (X.690 8.1.3.4/8.1.3.5 + 10.1)"""
+    """r is THE definite minimal length encoding of n (X.690 8.1.3.4/8.1.3.5 + 10.1):
+    short form up to 127, else 0x80|k followed by the k = ceil(bits(n)/8) octets of n, big-endian
+    (k minimal <=> no leading zero octet)"""
     if n <= 127:
         return len(r) == 1 and r[0] == n
-    return (len(r) >= 2 and r[0] == 128 + (len(r) - 1) and len(r) - 1 <= 126
-            and be_val(r[1:]) == n and r[1] != 0)
+    return len(r) == 1 + need(n) and r[0] == 128 + need(n) and be_val(r[1:]) == n
 
 
 def len_hdr_size(d, o):
@@ -88,3 +78,34 @@ def tag_complete(d, o):
     if d[o] % 32 != 31:
         return True
     return tag_cont_complete(d, o + 1)
+
+
+def le128(n) -> Seq:
+    """little-endian base-128 digits of n (none for n <= 0), each carrying the continuation bit 0x80"""
+    if n <= 0:
+        return []
+    return [128 + n % 128] + le128(n // 128)
+
+
+def tag_octets(number, flags):
+    """identifier octets (X.690 8.1.2): low form for numbers 0..30, else the leading octet with
+    the five low bits set followed by the minimal big-endian base-128 digits of the number, bit 8 set
+    on all but the last; flags = class and P/C bits (multiple of 32)"""
+    if number < 31:
+        return [flags + number]
+    return [flags + 31] + rev([number % 128] + le128(number // 128))
+
+
+def tlv_header_complete(d, o):
+    """identifier and length octets of the TLV starting at o lie completely inside d"""
+    return tag_complete(d, o) and tag_end(d, o) < len(d) and len_hdr_complete(d, tag_end(d, o))
+
+
+def tlv_is_indefinite(d, o):
+    return len_is_indefinite(d, tag_end(d, o))
+
+
+def tlv_end(d, o):
+    """offset just after the definite-length TLV whose header starts at o (whether or not the contents
+    are all present in d)"""
+    return tag_end(d, o) + len_hdr_size(d, tag_end(d, o)) + len_value(d, tag_end(d, o))
